@@ -160,6 +160,9 @@ def check_events(case):
                 import functools
 
                 return functools.partial(fn2, "extra")
+            if shape == "method-temp":
+                # a listener object nobody but the subscription refers to (removed, if at all, by id)
+                return type("Listener", (), {"on_event": fn2})().on_event
             if shape == "method":
                 inst = type("Listener", (), {"on_event": fn2})()
                 owners[i] = inst  # removal by callback accesses `inst.on_event` again: an equal, not identical, object
@@ -176,10 +179,15 @@ def check_events(case):
                     fns[i] = make(i, cb)
                     uids[i] = client.onevent(callback=fns[i], device=cb["device"], vector=cb["vector"], element=cb["element"], event_type=etype_class(cb["etype"]))
                     active[i] = True
+                    if cb.get("shape") == "method-temp":
+                        fns[i] = None  # the harness keeps no reference to the listener or its bound method
+                        import gc
+
+                        gc.collect()
             for i, cb in enumerate(cbs):
                 rm = cb.get("rm")
                 if rm and uids[i] is not None and rm["at"] % (n + 1) == pos and pos > cb["reg_at"] % (n + 1):
-                    if rm["by"] == "id":
+                    if rm["by"] == "id" or cb.get("shape") == "method-temp":
                         client.rmonevent(uuid=uids[i])
                         active[i] = False
                     else:
@@ -323,7 +331,7 @@ callback_st = st.fixed_dictionaries(
         "element": absent_biased(["x", "xy", "y", "nosuch"]),
         "etype": st.sampled_from(["Base", "Base", "Value", "State", "Definition"]),
         "coro": st.sampled_from([False, False, True]),
-        "shape": st.sampled_from(["function", "function", "partial", "method", "object"]),
+        "shape": st.sampled_from(["function", "function", "partial", "method", "object", "method-temp"]),
         "raises": st.sampled_from([False, False, False, True]),
         "oneshot": st.sampled_from([False, False, True]),
         "reg_at": st.sampled_from([0, 0, 0, 1, 2, 5, 9]),
